@@ -339,7 +339,7 @@ pub fn run(run: &Run) {
         check_case(run, "C09", "history", Src::fresh(Rng::derive(run.seed, 9, i)), &|s| gen_case(s, &bs), &|c| oracle(c, &bs), &|c| witness(c, &bs), &|c, s| {
             run.nontrivial(fnv(format!("{:?}", c).as_bytes()));
             for st in &c.steps { run.count(match st { Step::Create(_) => "op:create", Step::Update(..) => "op:update", Step::Promise => "op:promise", Step::Fulfil(..) => "op:fulfil", Step::Read(_) => "op:read", Step::Save => "op:save", Step::FailingSave => "op:failing-save", Step::ContinueOnReload => "op:continue-on-reload" }); }
-            for l in &s.labels { run.count(&format!("label:{}", l)); }
+            run.count_labels(&s.labels);
             {
                 // updates that define a number which designated no object in the base (index into the initial target list)
                 let b = &bs[c.base]; let (lo, hi) = (b.direct.len().min(4) + b.compressed.len().min(3), b.direct.len().min(4) + b.compressed.len().min(3) + b.unused.len().min(2));
